@@ -65,6 +65,9 @@ func runC12(c *Ctx) error {
 			f.family = func(int) string { return "deadnt" }
 			f.nonEmpty = false
 		}
+		if gi%6 == 4 {
+			f.family = func(int) string { return "manyterms" } // token types beyond 255
+		}
 		switch gi % 3 {
 		case 1:
 			f.ambiguous = true
